@@ -1,4 +1,6 @@
 """Reusable rule helpers built on core queries."""
+import re
+
 from .core import *  # noqa
 
 
@@ -374,3 +376,85 @@ def discr_of_call(c, pat):
     if e[0] == "place":
         e = e[1]
     return e[0] == "call" and rx(pat).search(e[1] or "") is not None
+
+
+# ---------------------------------------------------------------------------
+# name-independent identification of locals (rules must survive a renaming of
+# every local variable and parameter: ./check --anon re-runs them that way)
+def is_local(e, l):
+    """expression is (a use of) local number l"""
+    if isinstance(l, (set, frozenset, list, tuple)):
+        return isinstance(e, tuple) and e[0] in ("var", "phi", "arg") and e[1] in l
+    return isinstance(e, tuple) and e[0] in ("var", "phi", "arg") and e[1] == l
+
+
+def user_locals(body, ty_pat=None, kinds=("var",)):
+    """numbers of the user-declared locals (optionally of a type)"""
+    r = rx(ty_pat) if ty_pat else None
+    return [i for i, l in enumerate(body.locals) if l.get("n") and l["k"] in kinds and (r is None or r.search(l["ty"]))]
+
+
+def args_of_type(body, ty_pat):
+    r = rx(ty_pat)
+    return [i for i, l in enumerate(body.locals) if l["k"] == "arg" and r.search(l["ty"])]
+
+
+def root_is(e, locs):
+    """some root atom of the expression is one of the locals `locs`"""
+    locs = set(locs) if not isinstance(locs, int) else {locs}
+    return any(r[0] in ("var", "phi", "arg") and r[1] in locs for r in e_roots(e))
+
+
+def bool_test(c, lab):
+    """(expr, truth) of a boolean branch edge with Not stripped, or None"""
+    if not isinstance(lab, bool):
+        return None
+    c2, tr = strip_not(c, True)
+    return c2, (lab if tr else not lab)
+
+
+def locals_guarding(body, site, truth=True, ty_pat=r"^bool$"):
+    """user locals L such that `L == truth` is established on a dominating edge of `site`"""
+    out = []
+    ul = set(user_locals(body, ty_pat, kinds=("var", "arg")))
+    for c, lab, a in body.guards(site):
+        bt = bool_test(c, lab)
+        if bt and bt[1] is truth and bt[0][0] in ("var", "phi", "arg") and bt[0][1] in ul:
+            out.append(bt[0][1])
+    return out
+
+
+def shape(body, e, depth=4):
+    """canonical text of an expression in which every local is rendered by kind and type instead of by
+    name (`<arg:&mut u64>`, `<var:u8>`), captured variables as `^`, fields by their declared name: the key
+    vocabulary of reasoned exception tables (stable under renaming of locals and parameters)"""
+    if not isinstance(e, tuple):
+        return str(e)
+    if depth <= 0:
+        return "…"
+    k = e[0]
+    if k == "const":
+        if e[3] is not None:
+            return repr(e[3])
+        if e[1]:
+            return "::".join(e[1].split("::")[-2:])
+        return str(e[2])
+    if k in ("arg", "var", "phi"):
+        ty = re.sub(r"\{closure@[^}]*\}", "{closure}", body.lty(e[1]))
+        return "<%s:%s>" % ("arg" if body.locals[e[1]]["k"] == "arg" else "var", ty.split("::")[-1])
+    if k == "place":
+        return shape(body, e[1], depth - 1) + "".join((".^" if p.startswith(".^") else "." + p.rsplit(".", 1)[-1]) if p.startswith(".") else p for p in e[2])
+    if k == "call":
+        nm = (e[1] or "?").split("::")
+        return "%s(%s)" % ("::".join(nm[-2:]), ",".join(shape(body, a, depth - 1) for a in e[2]))
+    if k == "bin":
+        return "(%s %s %s)" % (shape(body, e[2], depth - 1), e[1], shape(body, e[3], depth - 1))
+    if k == "un":
+        return "%s(%s)" % (e[1], shape(body, e[2], depth - 1))
+    if k == "cast":
+        return shape(body, e[1], depth - 1)
+    if k == "discr":
+        return "discr(%s)" % shape(body, e[1], depth - 1)
+    if k == "agg":
+        return "%s{%s}" % ("::".join((e[2] or "").split("::")[-2:]), ",".join(shape(body, a, depth - 1) for a in e[3]))
+    return k
